@@ -27,6 +27,7 @@ import PybropsModel.Lemmas.LabelMatSquare3
 import PybropsModel.Lemmas.LabelMatFill
 import PybropsModel.Lemmas.LabelMatX
 import PybropsModel.Lemmas.LabelMatSpec
+import PybropsModel.Lemmas.LabelDtype
 import PybropsModel.Props.C15
 
 set_option autoImplicit false
@@ -1173,5 +1174,76 @@ theorem spec_grouped_sound {α lab : Type} [DecidableEq lab] (sch : Schema) (s :
       exact ⟨c, col, rfl, hcol, (partitionOK_iff g col).mp hk'⟩
 
 example : groupedOK schPhased sGrouped = true := by decide
+
+/-! ## 12. The storage dtype of a data block (round 5; `Model/LabelDtype.lean`, integer dtypes)
+
+The label-matrix model moves integer codes and has no dtype.  The one place where a dtype decides whether "the data
+cells are exactly those of that entity" is the meeting of a block of one dtype with a receiver of another one. -/
+
+open LabelDtype in
+/-- adjoin / append / concat of the single-axis classes (numpy.append / concatenate promote): whatever the two integer
+    dtypes are, every cell of the receiver and of the operand block is stored unchanged. -/
+theorem append_store_keeps_cells (da db d : IDt) (xs ys zs : List Int)
+    (hx : ∀ x ∈ xs, da.fits x) (hy : ∀ y ∈ ys, db.fits y) (h : appendStore da xs db ys = some (d, zs)) :
+    zs = xs ++ ys := by
+  unfold appendStore at h
+  cases hp : promote da db with
+  | none => rw [hp] at h; cases h
+  | some d' =>
+    rw [hp] at h
+    simp only [Option.map_some, Option.some.injEq, Prod.mk.injEq] at h
+    obtain ⟨hd, hz⟩ := h
+    subst hd
+    rw [← hz]
+    apply map_wrap_of_fits
+    intro v hv
+    rcases List.mem_append.mp hv with hv | hv
+    · exact fits_promote_left da db d' hp v (hx v hv)
+    · exact fits_promote_right da db d' hp v (hy v hv)
+
+open LabelDtype in
+example : appendStore .i16 [1, 2] .i64 [70000, -40000] = some (.i64, [1, 2, 70000, -40000]) := by decide
+
+/- FULL STATEMENT (insert_* / incorp_* of every class; adjoin_* / append_* of the square classes — the operations that
+   keep the receiver's storage dtype):
+     theorem store_into_keeps_cells (da db : IDt) (xs ys : List Int)
+         (hx : ∀ x ∈ xs, da.fits x) (hy : ∀ y ∈ ys, db.fits y) : (storeInto da xs ys).2 = xs ++ ys
+   It fails for the code as it is (finding D71): `store_into_narrows_counterexample`.  What holds is the statement for
+   blocks whose values are representable in the RECEIVER's dtype. -/
+open LabelDtype in
+theorem store_into_keeps_cells_partial (da : IDt) (xs ys : List Int) (hy : ∀ y ∈ ys, da.fits y) :
+    (storeInto da xs ys).2 = xs ++ ys := by
+  simp only [storeInto]
+  rw [map_wrap_of_fits da ys hy]
+
+open LabelDtype in
+example : ∀ y ∈ [100, -7], IDt.i16.fits y := by decide
+
+open LabelDtype in
+/-- finding D71: an int64 block adjoined to an int16 square matrix (or inserted into any int16 matrix): the cell created
+    as 70000 is stored as 4464 although both blocks hold only values of their own dtypes. -/
+theorem store_into_narrows_counterexample :
+    (∀ x ∈ [0, 1], IDt.i16.fits x) ∧ (∀ y ∈ [70000], IDt.i64.fits y) ∧
+      (storeInto .i16 [0, 1] [70000]).2 = [0, 1, 4464] ∧ (storeInto .i16 [0, 1] [70000]).2 ≠ [0, 1] ++ [70000] := by
+  decide
+
+open LabelDtype in
+/-- patches/C03_D71.diff (the receiver is promoted to numpy.result_type first): every cell is kept. -/
+theorem store_into_repaired_keeps_cells (da db d : IDt) (xs ys zs : List Int)
+    (hx : ∀ x ∈ xs, da.fits x) (hy : ∀ y ∈ ys, db.fits y) (h : storeIntoRepaired da xs db ys = some (d, zs)) :
+    zs = xs ++ ys := by
+  unfold storeIntoRepaired at h
+  cases hp : promote da db with
+  | none => rw [hp] at h; cases h
+  | some d' =>
+    rw [hp] at h
+    simp only [Option.map_some, Option.some.injEq, Prod.mk.injEq] at h
+    obtain ⟨hd, hz⟩ := h
+    subst hd
+    rw [← hz, map_wrap_of_fits d' xs (fun v hv => fits_promote_left da db d' hp v (hx v hv)),
+      map_wrap_of_fits d' ys (fun v hv => fits_promote_right da db d' hp v (hy v hv))]
+
+open LabelDtype in
+example : storeIntoRepaired .i16 [0, 1] .i64 [70000] = some (.i64, [0, 1, 70000]) := by decide
 
 end C03
